@@ -222,7 +222,7 @@ func heapAllocs() uint64 {
 }
 
 // runChild processes a batch: lines "<strict 0|1> <entry> <flags> <hex input>"; flags: s = shallow.
-// Result file lines: "B <i>" before, "R <i> <allocBytes> <nanos> <reuseSame 0|1> <outcome>" after.
+// Result file lines: "B <i>" before, "R <i> <allocBytes> <nanos> <reuseSame 0|1> <re-measurements> <outcome>" after.
 func runChild(batch, res string, maxStack int) {
 	if maxStack > 0 {
 		debug.SetMaxStack(maxStack)
@@ -244,6 +244,15 @@ func runChild(batch, res string, maxStack int) {
 	// one long-lived parser per mode, reused for every input of the batch: a result that depends
 	// on anything but (options, input) shows up as a difference to the fresh-instance result
 	reused := map[bool]*sml.Parser{false: sml.NewParser(), true: sml.NewParser(sml.WithParserStrictMode(true))}
+	// warm-up: the one-time initialisation of the libraries the calls go through, and the start of
+	// the runtime's GC workers (first GC cycle), happen here, not inside a measured call
+	for _, st := range []bool{false, true} {
+		for _, e := range []byte{'G', 'P', 'M', 'H'} {
+			call(reused[st], st, e, "S1F1 W\n<L <A \"a\"> <U1 1> <F4 1.5> <BOOLEAN T> <B 0x01>>\n.", false)
+			call(reused[st], st, e, "S1F1 <X>.", false)
+		}
+	}
+	runtime.GC()
 	i := 0
 	for sc.Scan() {
 		f := strings.SplitN(sc.Text(), " ", 4)
@@ -263,13 +272,39 @@ func runChild(batch, res string, maxStack int) {
 		out := call(fresh, strict, entry, input, shallow)
 		dt := time.Since(t0)
 		a1 := heapAllocs()
+		alloc := a1 - a0
+		// The TotalAlloc delta is process-wide. Measured cause of the sporadic ~30 KB (and 6-8 KB)
+		// deltas on tiny inputs: when an allocation inside the window starts a GC cycle, the runtime
+		// creates its mark-worker goroutines and threads (about 20 g structs of 480 bytes, 16 of 512,
+		// a few m structs: 30,472 bytes at the first cycle of a process, a few KB at some later
+		// ones) and those count as heap allocations. They are not the parser's. An over-bound
+		// measurement is therefore repeated (GC first, nothing else running, a fresh parser each
+		// time) and the MINIMUM is reported: an allocation the parser really makes for this input
+		// shows up in every repetition.
+		remeasured := 0
+		if alloc > allocBound(len(input)) && !strings.HasPrefix(out, "PANIC") {
+			for rep := 0; rep < 3; rep++ {
+				runtime.GC()
+				p2 := sml.NewParser(sml.WithParserStrictMode(strict))
+				b0 := heapAllocs()
+				call(p2, strict, entry, input, shallow)
+				b1 := heapAllocs()
+				remeasured++
+				if b1-b0 < alloc {
+					alloc = b1 - b0
+				}
+				if alloc <= allocBound(len(input)) {
+					break
+				}
+			}
+		}
 		same := 1
 		if !strings.HasPrefix(out, "PANIC") && entry != 'G' {
 			if out2 := call(reused[strict], strict, entry, input, shallow); out2 != out {
 				same = 0
 			}
 		}
-		fmt.Fprintf(w, "R %d %d %d %d %s\n", i, a1-a0, dt.Nanoseconds(), same, out)
+		fmt.Fprintf(w, "R %d %d %d %d %d %s\n", i, alloc, dt.Nanoseconds(), same, remeasured, out)
 		w.Flush()
 		i++
 	}
